@@ -74,7 +74,11 @@ impl PixelDataReader for JpegAdapter {
                 .with_whatever_context(|_| format!("JPEG decoding failure on frame {i}"))?;
 
             let decoded_len = decoded.len();
-            dst[dst_offset..(dst_offset + decoded_len)].copy_from_slice(&decoded);
+            dst.get_mut(dst_offset..(dst_offset + decoded_len))
+                .with_whatever_context(|| {
+                    format!("JPEG frame {i} holds more data than described by the image attributes")
+                })?
+                .copy_from_slice(&decoded);
             dst_offset += decoded_len;
 
             if next_even(cursor.position()) >= next_even(fragments_len) {
@@ -225,7 +229,9 @@ impl PixelDataReader for JpegAdapter {
             .whatever_context("JPEG decoder failure")?;
 
         let decoded_len = decoded.len();
-        dst[dst_offset..(dst_offset + decoded_len)].copy_from_slice(&decoded);
+        dst.get_mut(dst_offset..(dst_offset + decoded_len))
+            .whatever_context("JPEG frame holds more data than described by the image attributes")?
+            .copy_from_slice(&decoded);
 
         Ok(())
     }
